@@ -1,5 +1,86 @@
 import FGVerif.Driver.Shared
-/-! driver operations for C06 (stub: replaced by the property's own driver) -/
+import FGVerif.Driver.C07
+import FGVerif.Model.C06
+/-!
+  driver operations for C06
+
+  `(C06 tree <mapper> (<cfg> …) <env seed> [<impl>])`
+      impl := (<tree> …)   -- the DISTINCT answers of the interpreter processes (one if deterministic)
+      tree := ((<root idx> …) ((<child idx> …) …))   -- ORDERED: the roots list and the children list of
+              every config, over the positions of the given list      | (raised <Kind>)
+      reply `(ok (<model tree>) <spec_model> <spec_impl> <envIndependent> <orderContract>)`;
+      spec_impl = all processes produced one and the same ordered tree (the property: determinism);
+      model = the model's ordered tree (correspondence); orderContract (informative) = roots strictly
+      ascending and every children list strictly descending in the model's sort key.
+  `(C06 det <mol id> <snapshot digest before> [<impl>])`
+      impl := ((<hashseed> (<answer> …) (<snapshot digest> …)) …)  -- answers: same object twice, fresh object
+      reply `(ok _ 1 <spec_impl> <number of distinct answers>)`; spec: all answers of all processes are
+      identical and every snapshot digest equals the one taken before the call.
+-/
 namespace C06
-def handle : List SExp → Option SExp := fun _ => none
+open SExp C07
+
+def ofView (pos : Nat → Nat) (v : View Nat) (n : Nat) : SExp :=
+  -- children lists re-indexed by the positions of the given list
+  let byInput := (List.range n).map fun inputIdx =>
+    match (List.range v.items.length).find? (fun i => pos i == inputIdx) with
+    | some i => (v.children.getD i []).map pos
+    | none => []
+  .list [ofList ofNat (v.roots.map pos), ofList (ofList ofNat) byInput]
+
+def strictlySorted (lt : Nat → Nat → Bool) : List Nat → Bool
+  | [] => true
+  | [_] => true
+  | a :: b :: rest => lt a b && strictlySorted lt (b :: rest)
+
+def handle : List SExp → Option SExp
+  | .atom "tree" :: m :: cfgs :: seed :: rest => do
+      let m ← asMapper m
+      let cfgs ← asList asCfg cfgs
+      let seed ← asNat seed
+      let t := mkTables m cfgs
+      let input := List.range t.n
+      let build := fun (s : Nat) => buildTreeE t.subE t.klt (Env.ofSeed s) input
+      let enc := fun (o : Option (Tree Nat)) => match o with
+        | some tr => ofView (fun i => (tr.items[i]?).getD 0) (view tr) t.n
+        | none => raisedAssertion
+      let model := build seed
+      let envIndep := [0, 1, 2, 3, 5, 11].all fun s => (build s).map view == model.map view
+      let orderOk := fun (roots : List Nat) (children : List (List Nat)) =>
+        strictlySorted t.klt roots && children.all fun c => strictlySorted (fun a b => t.klt b a) c
+      let specModel := match model with
+        | some tr =>
+            let pos := fun i => (tr.items[i]?).getD 0
+            orderOk ((view tr).roots.map pos) ((view tr).children.map fun c => c.map pos)
+        | none => false
+      -- impl: the list of DISTINCT ordered trees the interpreter processes produced; the property
+      -- (determinism) holds on this input iff there is exactly one and it is a tree
+      let isTree := fun (x : SExp) => match x with
+        | .list [.atom "raised", _] => false
+        | .list [_, _] => true
+        | _ => false
+      let orderImpl := fun (x : SExp) => match x with
+        | .list [rs, cs] => match asList asNat rs, asList (asList asNat) cs with
+            | some rs, some cs => orderOk rs cs
+            | _, _ => false
+        | _ => false
+      let (specImpl, orderContract) ← match rest with
+        | [.list trees] => pure (ofBool (trees.length == 1 && trees.all isTree), ofBool (trees.all orderImpl))
+        | [] => pure (none', none')
+        | _ => none
+      pure (.list [.atom "ok", .list [enc model], ofBool specModel, specImpl, ofBool envIndep, orderContract])
+  | [.atom "det", _, before, .list runs] => do
+      let runs ← runs.mapM fun r => match r with
+        | .list [_, .list answers, .list snaps] => some (answers, snaps)
+        | _ => none
+      let answers := runs.flatMap (·.1)
+      let snaps := runs.flatMap (·.2)
+      let first := answers.head?
+      let allSame := answers.all fun a => some a == first
+      let untouched := snaps.all fun s => s == before
+      let distinct := answers.foldl (fun acc a => if acc.any (· == a) then acc else acc ++ [a]) ([] : List SExp)
+      pure (.list [.atom "ok", none', ofBool true, ofBool (allSame && untouched && !answers.isEmpty),
+                   ofNat distinct.length, ofBool allSame, ofBool untouched])
+  | _ => none
+
 end C06
